@@ -1,5 +1,5 @@
 (* C01 - DWT analysis equals PyWavelets.  Statements only; proofs are in Proofs/. *)
-From PW Require Import Base.Ops Base.Sum Base.Sig Base.Tensor Model.Dwt Spec.Line Proofs.DwtNF Proofs.C01Proofs Proofs.C01Proofs2D Proofs.Per2D.
+From PW Require Import Base.Ops Base.Sum Base.Sig Base.Tensor Model.Dwt Spec.Line Proofs.DwtNF Proofs.C01Proofs Proofs.C01Proofs2D Proofs.Per2D Proofs.C02Proofs Proofs.C02ProofsPer Proofs.C02Proofs2D Proofs.MultiSpec.
 
 (* One level, filtering along the last axis (the whole of the 1-D transform's level, and the row pass of the 2-D one),
    modes zero / symmetric / periodic for every length >= 1, reflect whenever the code does not raise:
@@ -76,6 +76,39 @@ Theorem C01_level_2d_per :
            = pywt_dwt2_per Op Lr (dsel dr0 dr1 (b/2)) Lc (dsel dc0 dc1 (b mod 2)) (tH x) (tW x) (fun p q => tf x n c p q) i j).
 Proof. exact @AFB2D_pywt_per. Qed.
 Print Assumptions C01_level_2d_per.
+
+(* ---- every J: the level loops return wavedec / wavedec2 ----
+   wavedec_rel lev J x yl yh: yh has J entries, FINEST LEVEL FIRST; entry 1 and an approximation a are the one-level transform
+   `lev` of x, the rest is the (J-1)-level decomposition of a, and yl is the last approximation.
+   level1d / level2d (Proofs/MultiSpec.v) = shapes + PyWavelets' closed form of one level (pywt_dwt, pywt_dwt2). *)
+Theorem C01_multilevel_1d :
+  forall (R:Type) (Op:Ops R) (Rth:RingOk Op) (J:nat) (x:@ten R) L d0 d1 mode,
+  2 <= L -> 1 <= tH x -> 0 < tC x -> 1 <= tW x -> levels_ok J mode L (tW x) ->
+  is_ok (DWT1DForward Op J x L (rev_filt L d0) (rev_filt L d1) mode)
+    (fun r => wavedec_rel (level1d Op mode L d0 d1) J x (fst r) (snd r) /\ length (snd r) = J).
+Proof. intros R Op Rth J. exact (wavedec_1d Op Rth J). Qed.
+Print Assumptions C01_multilevel_1d.
+Theorem C01_multilevel_1d_per :
+  forall (R:Type) (Op:Ops R) (Rth:RingOk Op) (J:nat) (x:@ten R) L d0 d1,
+  2 <= L -> L mod 2 = 0 -> 1 <= tH x -> 0 < tC x -> 1 <= tW x -> levels_ok_per J L (tW x) ->
+  is_ok (DWT1DForward Op J x L (rev_filt L d0) (rev_filt L d1) M_PER)
+    (fun r => wavedec_rel (level1d_per Op L d0 d1) J x (fst r) (snd r) /\ length (snd r) = J).
+Proof. intros R Op Rth J. exact (wavedec_1d_per Op Rth J). Qed.
+Print Assumptions C01_multilevel_1d_per.
+Theorem C01_multilevel_2d :
+  forall (R:Type) (Op:Ops R) (Rth:RingOk Op) (J:nat) (x:@ten R) Lr dr0 dr1 Lc dc0 dc1 mode,
+  2 <= Lr -> 2 <= Lc -> 0 < tC x -> 1 <= tW x -> 1 <= tH x -> levels_ok2 J mode Lr Lc (tH x) (tW x) ->
+  is_ok (DWTForward Op J x Lr (rev_filt Lr dr0) (rev_filt Lr dr1) Lc (rev_filt Lc dc0) (rev_filt Lc dc1) mode)
+    (fun r => wavedec_rel (level2d Op mode Lr dr0 dr1 Lc dc0 dc1) J x (fst r) (snd r) /\ length (snd r) = J).
+Proof. intros R Op Rth J. exact (wavedec_2d Op Rth J). Qed.
+Print Assumptions C01_multilevel_2d.
+Theorem C01_multilevel_2d_per :
+  forall (R:Type) (Op:Ops R) (Rth:RingOk Op) (J:nat) (x:@ten R) Lr dr0 dr1 Lc dc0 dc1,
+  2 <= Lr -> Lr mod 2 = 0 -> 2 <= Lc -> Lc mod 2 = 0 -> 0 < tC x -> 1 <= tW x -> 1 <= tH x -> levels_ok2_per J Lr Lc (tH x) (tW x) ->
+  is_ok (DWTForward Op J x Lr (rev_filt Lr dr0) (rev_filt Lr dr1) Lc (rev_filt Lc dc0) (rev_filt Lc dc1) M_PER)
+    (fun r => wavedec_rel (level2d_per Op Lr dr0 dr1 Lc dc0 dc1) J x (fst r) (snd r) /\ length (snd r) = J).
+Proof. intros R Op Rth J. exact (wavedec_2d_per Op Rth J). Qed.
+Print Assumptions C01_multilevel_2d_per.
 
 (* The guard is necessary: below the filter length the code (single fold) differs from PyWavelets.
    Witness: length 2, L = 4, dec = (1,2,3,4): the model (which the correspondence check ties to the code)
